@@ -129,6 +129,8 @@ def cases(rng, tier):
         if k % 2:
             add_stage_blocks(rng, m)
         out.append({"op": None, "tag": "method-stages" if k % 2 else "method", "method": m})
+    for tt in ([True, True, 4], [True, False, 3], [False, True, 3], [True, True, 1]):
+        out.append({"op": None, "tag": "two-user-types", "two_types": tt})
     precompute(out)
     return out
 
@@ -155,12 +157,91 @@ def add_stage_blocks(rng, m):
         ph["prog"][pos:pos] = block
 
 
+def two_type_bundle(with_field, with_tracer, nruns):
+    """a method over TWO user types of different shape - a structure with a pointer member and a flat array - with the
+    module and a driver for it (the per-type routines dagrt_alloc_check_<type> / dagrt_deinit_<type> are generated in
+    a loop over the user types: one type's routine must not be built from another type's layout)"""
+    from pymbolic import var
+    import dagrt.codegen.fortran as f
+    import dagrt.language as lang
+    from dagrt.function_registry import base_function_registry, register_ode_rhs
+    from dagrt.language import CodeBuilder
+    n, m_, dt = 5, 3, 0.125
+    freg = base_function_registry
+    utm = {}
+    if with_field:
+        freg = register_ode_rhs(freg, "field", identifier="<func>f", input_names=("y",))
+        freg = freg.register_codegen("<func>f", "fortran", f.CallCode("""
+                    ${result}%v = -0.5d0*${y}%v
+                    """))
+        utm["field"] = f.StructureType("cell", (("v", f.PointerType(f.ArrayType((n,), f.BuiltinType("real*8")))),))
+    if with_tracer:
+        freg = register_ode_rhs(freg, "tracer", identifier="<func>g", input_names=("z",))
+        freg = freg.register_codegen("<func>g", "fortran", f.CallCode("""
+                    ${result} = -0.25d0*${z}
+                    """))
+        utm["tracer"] = f.ArrayType((m_,), f.BuiltinType("real*8"))
+    with CodeBuilder(name="main") as cb:
+        if with_field:
+            cb("k1", "<func>f(<t>, <state>y)")
+            cb("y1", "<state>y + <dt>*k1")
+            cb("k2", "<func>f(<t> + <dt>, y1)")
+            cb("<state>y", "<state>y + 0.5*<dt>*(k1 + k2)")
+        if with_tracer:
+            cb("l1", "<func>g(<t>, <state>z)")
+            cb("<state>z", "<state>z + <dt>*l1")
+        cb("<t>", "<t> + <dt>")
+        if with_field:
+            cb.yield_state("<state>y", "field", var("<t>"), "final")
+        if with_tracer:
+            cb.yield_state("<state>z", "tracer", var("<t>"), "final")
+    code = lang.DAGCode.from_phases_list([cb.as_execution_phase("main")], "main")
+    import contextlib
+    import io
+    with contextlib.redirect_stdout(io.StringIO()):
+        text = f.CodeGenerator("meth", function_registry=freg, module_preamble="""
+            type cell
+              real*8, dimension(:), pointer :: v
+            end type
+            """, user_type_map=utm)(code)
+    init = ", ".join((["state_y=y0"] if with_field else []) + (["state_z=z0"] if with_tracer else []))
+    driver = f"""
+program drv
+  use meth
+  implicit none
+  type(dagrt_state_type), target :: st
+  type(dagrt_state_type), pointer :: sp
+  type(cell) :: y0
+  real*8, dimension({m_}) :: z0
+  integer i
+  sp => st
+  allocate(y0%v({n}))
+  do i = 1, {n}
+    y0%v(i) = i
+  end do
+  do i = 1, {m_}
+    z0(i) = 10*i
+  end do
+  call initialize(dagrt_state=sp, {init}, dagrt_t=0d0, dagrt_dt={dt!r}d0)
+  do i = 1, {nruns}
+    call run(dagrt_state=sp)
+  end do
+  call shutdown(dagrt_state=sp)
+  deallocate(y0%v)
+  write(*,'(A)') 'done'
+end program
+"""
+    return {"text": text, "driver": driver}
+
+
 def key(case):
-    return json.dumps({k: v for k, v in case.items() if k in ("n", "ops", "method")}, sort_keys=True)
+    return json.dumps({k: v for k, v in case.items() if k in ("n", "ops", "method", "two_types")}, sort_keys=True)
 
 
 def gen_one(case):
     try:
+        if case.get("two_types") is not None:
+            return two_type_bundle(*case["two_types"])
         if case.get("method") is not None:
             text = fc.fortran_text(case["method"])
             return {"text": text, "driver": fc.fortran_driver(text, case["method"])}
@@ -242,10 +323,14 @@ def oracle(case, out):
 def nontrivial(case, out):
     if case.get("op") == "C12.ops":
         return any((x or 0) >= 2 for st in (out.get("trace") or []) for x in st["rc"])
+    if case.get("two_types") is not None:
+        return case["two_types"][2] >= 2
     return case["method"]["runs"] >= 2
 
 
 def shrink(case, still_fails):
+    if case.get("two_types") is not None:
+        return case
     if case.get("op") == "C12.ops":
         cur = case
         changed = True
